@@ -18,6 +18,7 @@ import bitd_spec as S
 import bitd_gen
 
 PROP = "C06"
+HAS_SEARCH_TIER = True
 LEAN_MODULES = ["DrxProps.C06"]
 FAMILIES = ["bitd"]
 RULE = ("images: every canvas width 1..40 x (H, top offset) in {(1,0),(2,0),(3,1),(2,1)} x left offset 0..5 for 1- and 8-bit, each raw "
@@ -400,6 +401,8 @@ def failures_of(case, io_):
         parsed.append((li, img, pad, enc, data, j))
         if not in_quantifier(img, pad, enc, data):
             continue
+        if (classify(img, enc, data) is None) != supported(img, enc):
+            res.append(("enc#%d" % li, "the Supported predicate and the union of the finding classes are not complementary on this input", None))
         if not j["read_ok"]:
             res.append(("enc#%d" % li, "encoding %s of a %d-bit %dx%d image at (%d,%d): the BMP %s" % (
                 case["spec"]["encs"][li] if li < len(case["spec"].get("encs", [])) else li, img["depth"], img["W"], img["H"], img["ox"], img["oy"],
